@@ -69,6 +69,12 @@ def lefts():
     for v in (True, 1, 1.0):
         out.append(("L1", "A", repr(v), ("m", (("a", A("A", v)),
                                                ("b", R("A"))))))
+    # anchored values Python takes for "nothing" (the empty text, false, 0.0)
+    for v in ("", False, 0.0):
+        out.append(("L1", "A", repr(v), ("m", (("a", A("A", v)),
+                                               ("b", R("A"))))))
+        out.append(("L2", "A", repr(v), ("m", (("a", A("A", v)),
+                                               ("c", ("l", (R("A"), "k")))))))
     return out
 
 
@@ -96,7 +102,7 @@ def rights():
             out.append(("R7", n, v, ("m", (
                 ("d", ("&", "D", ("m", (("t", A(n, v)), ("g", R(n)))))),
                 ("e", ("*", "D"))))))
-    for v in (True, 1, 1.0):
+    for v in (True, 1, 1.0, "", False, 0.0):
         out.append(("R1", "A", repr(v), ("m", (("d", A("A", v)),
                                                ("e", R("A"))))))
     return out
